@@ -24,6 +24,8 @@ def generate(rng, idx, tier, variant):
         spec.pop('mixins', None)
         pokes = []
         names = spec['endo'] + spec['exo']
+    np_err = rng.choice(['default'] * 6 + ['ignore', 'warn', 'raise', 'raise'])
+    spec['_allow_huge'] = np_err != 'raise'
     n, lags, leads = spec['span']['n'], spec['lags'], spec['leads']
     spec['trace_variables'] = None if rng.random() < 0.6 else rng.sample(names, rng.randint(1, len(names)))
     ops = list(pokes)
@@ -96,7 +98,8 @@ def generate(rng, idx, tier, variant):
             ops.append({'op': 'add_variable', 'name': f'N{len(ops)}', 'v': rng.choice(S.DYADS)})
         elif rng.random() < 0.2:
             ops.append({'op': 'poke', 'name': rng.choice(names), 'pos': rng.randrange(n), 'v': rng.choice(S.DYADS)})
-    return {'spec': spec, 'ops': ops, 'np_err': rng.choice(['default'] * 6 + ['ignore', 'warn', 'raise', 'raise'])}
+    spec.pop('_allow_huge', None)
+    return {'spec': spec, 'ops': ops, 'np_err': np_err}
 
 
 def build_triplet(fsic, spec):
@@ -192,10 +195,10 @@ def execute(schedule, ctx):
 
         def call(m, **extra):
             if entry == 'solve_t':
-                return m.solve_t(op['t'], **opts, **extra)
+                return m.solve_t(op['t'], **S.solver_kwargs(opts), **extra)
             if entry == 'solve_period':
-                return m.solve_period(spans.label_forms(spec['span'], span, tn, op.get('form', 0)), **opts, **extra)
-            return m.solve(**opts, **extra)
+                return m.solve_period(spans.label_forms(spec['span'], span, tn, op.get('form', 0)), **S.solver_kwargs(opts), **extra)
+            return m.solve(**S.solver_kwargs(opts), **extra)
 
         tracing = bool(tr)
         extra = {'trace': tr} if (tr is not None) else {}
@@ -219,7 +222,7 @@ def execute(schedule, ctx):
             flags = []
             for p in planned:
                 attempted.append(p)
-                o = _out(lambda: B.solve_t(p, **opts))
+                o = _out(lambda: B.solve_t(p, **S.solver_kwargs(opts)))
                 if o['kind'] == 'raise':
                     oB = o
                     break
